@@ -24,7 +24,7 @@ MODELLED_OPS = {'pb': 'dpb', 'pop': 'dpop', 'cl': 'dcl', 'af': '(da %d)', 'an': 
 # steps that write to the buffer (the chains run in canary mode)
 WRITE_DATA_OPS = ('w', 'r', 'a', 'pb', 'pop', 'cl', 'er', 'er1', 'ins', 'ins1', 'rs', 'rv', 'af', 'an', 'as', 'ai',
                   'insr', 'insi')
-CANARY_SLACK = 8192
+CANARY_SLACK = 1024       # > the largest write an enumerated chain performs (counts are capped at 512)
 CANARY_FILL = 0xC3
 
 
@@ -908,7 +908,7 @@ def enum_chains(spec, max_entries=2, max_chains=400, extra_counts=(), only_data=
             # counts: the stored one, the one that fits the image exactly, and one more (bounded: the driver
             # allocates the source range)
             fit = spec.L - (p[2] + d['lenSize'])
-            for cnt in sorted({c for c in (n, n + 1, fit, fit + 1) + tuple(extra_counts) if 0 <= c <= min(mx, 4096)}):
+            for cnt in sorted({c for c in (n, n + 1, fit, fit + 1) + tuple(extra_counts) if 0 <= c <= min(mx, 512)}):
                 add(dp + [('r', cnt)])
                 add(dp + [('a', cnt)])
                 add(dp + [('af', cnt)])
